@@ -149,7 +149,11 @@ impl Vm {
                 state_reads,
                 op_access.clone(),
                 op_gas_cost,
-                gas_limit,
+                // Compute programs share what is left of the total gas limit.
+                GasLimit {
+                    total: gas_limit.total - gas_spent,
+                    ..gas_limit
+                },
             );
 
             #[cfg(feature = "tracing")]
